@@ -325,7 +325,7 @@ prop("C01",
                 "getTableMisnestedNodePosition returns the standard's foster-parenting place (stacks of up to 4 elements, each with "
                 "or without a parent) and TreeBuilder.insertText sends text to the current node or to that place (same bound); "
                 "reconstructActiveFormattingElements re-creates exactly the entries after the last marker / still-open entry, in "
-                "order (lists up to 3); "
+                "order (lists up to 3); clearActiveFormattingElements pops through the last marker (lists up to 4); "
                 "the etree builder's insertBefore keeps its shadow child list (C04 contracts serve C01); (3) ground: the scope "
                 "boundary sets, invert flags, formatting elements, headings and the special category against the standard's "
                 "tables (spec/treeconstruction.py); every insertion-mode class handles every token kind.",
